@@ -63,7 +63,7 @@ def enumerate_classes():
     out = []
     for m in modules():
         for n, c in sorted(inspect.getmembers(m, inspect.isclass), key=lambda t: t[0]):
-            if issubclass(c, saml2.SamlBase) and c.__module__ == m.__name__ and c.__name__ == n:
+            if issubclass(c, saml2.SamlBase) and c.__module__ == m.__name__ and c.__name__ == n and c.c_tag:
                 out.append((len(out), m.__name__, n, c))
     _cache[key] = out
     return out
@@ -164,9 +164,25 @@ def describe():
             kns, klocal = split_clark(key)
             children.append((kns, klocal, member, None if k is None else ids[k], is_list))
         attrs = [(xml, info[0]) for xml, info in c.c_attributes.items()]
+        # what a fresh instance holds (parsing starts from `target_class()`)
+        fresh = c()
+        init = []
+        for xml, member in attrs:
+            v = getattr(fresh, member, None)
+            if not (v is None or isinstance(v, str)):
+                raise ValueError("%s.%s: constructor default of %s is %r" % (mod, name, member, v))
+            init.append(v)
+        missing = [member for _k, _l, member, _c, _il in children if not hasattr(fresh, member)]
+        for _k, _l, member, _c, _il in children:
+            if getattr(fresh, member, None):
+                raise ValueError("%s.%s: a fresh instance already has children in %s" % (mod, name, member))
+        if fresh.extension_elements or (kind == "plain" and (fresh.extension_attributes or fresh.text)):
+            raise ValueError("%s.%s: a fresh instance already has text/extensions" % (mod, name))
         res.append({"id": i, "module": mod, "name": name, "ns": c.c_namespace, "tag": c.c_tag,
                     "children": children, "attrs": attrs, "order": list(c.c_child_order),
-                    "defaults": defaults, "kind": kind})
+                    "defaults": defaults, "init": init, "kind": kind,
+                    # child members the constructor never creates (to_string raises AttributeError until they are assigned)
+                    "missing": missing})
     return res
 
 
@@ -213,8 +229,9 @@ def generate():
         od = ", ".join(lit(o) for o in cd["order"])
         df = ", ".join("(%s, %s)" % (lit(k), _str_lit(v)) for k, v in cd["defaults"])
         w("/-- %s.%s -/" % (cd["module"], cd["name"]))
-        w("def c%d : ClassDef := { tag := %s, children := [%s], attrs := [%s], order := [%s], defaults := [%s], kind := .%s }"
-          % (cd["id"], _qname(cd["ns"], cd["tag"], nsids), ch, at, od, df, cd["kind"]))
+        ini = ", ".join("none" if v is None else "some %s" % _str_lit(v) for v in cd["init"])
+        w("def c%d : ClassDef := { tag := %s, children := [%s], attrs := [%s], order := [%s], defaults := [%s], attrInit := [%s], kind := .%s }"
+          % (cd["id"], _qname(cd["ns"], cd["tag"], nsids), ch, at, od, df, ini, cd["kind"]))
     w("")
     nchunks = (len(table) + CHUNK - 1) // CHUNK
     for k in range(nchunks):
